@@ -133,6 +133,10 @@ def run(res, tier):
         res.rule("NRM-2", "right shifts: the number of carry-chain steps equals size(operand) + steps for every operand size, result size and shift (piecewise-linear identity over the loop trip counts)")
         nn2 = nrm2(p, res)
         res.floor("NRM-2", "right-shift shape functions", nn2, 3)
+        from .c11 import wr6
+        res.rule("WR-6", "carry buffers of the shift / normalisation shape functions are written before a middle / final step reads them on every feasible path (zero-trip loops, single-limb cases)")
+        n6 = wr6(p, res)
+        res.floor("WR-6", "shape functions with a carry chain", n6, 6)
         from .c11 import col2
         res.rule("COL-2", "core noise-free operations read an operand at the loop's column index only below the operand's own rank + 1 (bound equal, min-dominated, branch-resolved max, or ranks asserted equal)")
         nc2 = col2(p, res)
